@@ -180,14 +180,14 @@ func runC10(c c10Case) (*vh.Violation, vh.Outcome) {
 			sim.head++
 			t := &simTx{Hash: crypto.Keccak256Hash([]byte(fmt.Sprintf("tx-%d", len(txs)))), Block: sim.head, BlockHash: sim.blockHash(sim.head), Status: 1}
 			t.OrigBlock, t.OrigHash = t.Block, t.BlockHash
-			n := 1 + o.C%2
+			n := 1 + o.C%3
+			// a transaction may carry several logs: genuine ones with different consistency levels, foreign ones in between
+			kinds := []int{o.A, (o.A + o.C/3) % 3, (o.A + o.C/7) % 3}
+			cls := []int{o.B, (o.B*7 + o.C) % 256, o.C % 4}
 			for k := 0; k < n; k++ {
 				l := simLog{Addr: c10Contract, Topic0: LogMessagePublishedTopic, Sender: eth_common.BytesToAddress([]byte{byte(1 + k)}), TC: uint16(o.C % 7), Seq: uint64(len(txs)*10 + k),
-					Nonce: uint32(o.C), Payload: vh.Expand(uint64(o.C), 1+o.C%60), CL: uint8(o.B)}
-				kind := o.A
-				if k == 1 {
-					kind = (o.A + 1) % 3 // a transaction may carry a foreign log next to a genuine one
-				}
+					Nonce: uint32(o.C), Payload: vh.Expand(uint64(o.C), 1+o.C%60), CL: uint8(cls[k])}
+				kind := kinds[k]
 				switch kind {
 				case 1:
 					l.Addr = c10Other
@@ -423,21 +423,31 @@ func runC10(c c10Case) (*vh.Violation, vh.Outcome) {
 				if c.Wait {
 					conf = uint64(lg.CL)
 				}
-				if last != nil && last.err {
-					// the node failed to answer; that excuses the loss only once the whole abandonment window (60 blocks
-					// past readiness) had gone by when it failed
-					var headThen uint64
-					for k := 0; k < last.seq; k++ {
-						if sv := servedLog[k]; sv.method == "eth_getBlockByNumber" && !sv.err && (sv.arg == "latest" || sv.arg == "finalized") && sv.head > headThen {
-							headThen = sv.head
+				// the node failed to answer a lookup; that excuses the loss only if the whole abandonment window (60 blocks past
+				// readiness) had gone by when it failed. Several messages of one transaction share their lookups, so any failed
+				// lookup of the transaction after the window counts.
+				excused, early := false, uint64(0)
+				var headThen uint64
+				for k := range servedLog {
+					sv := servedLog[k]
+					if sv.method == "eth_getBlockByNumber" && !sv.err && (sv.arg == "latest" || sv.arg == "finalized") && sv.head > headThen {
+						headThen = sv.head
+					}
+					if sv.method == "eth_getTransactionReceipt" && sv.arg == t.Hash.Hex() && sv.err {
+						if headThen >= t.OrigBlock+conf+60 {
+							excused = true
+						} else if early == 0 {
+							early = headThen
 						}
 					}
-					if headThen >= t.OrigBlock+conf+60 {
-						out.Labels = append(out.Labels, "abandoned-after-window")
-						continue
-					}
-					return vh.V("C10/abandoned-on-transient-error", "the log of tx %s (block %d, %d confirmations required) was given up after a single failed receipt lookup at head %d, long before the abandonment window (block %d) had passed; its transaction stayed in its block",
-						t.Hash.Hex()[:12], t.OrigBlock, conf, headThen, t.OrigBlock+conf+60), out
+				}
+				if excused {
+					out.Labels = append(out.Labels, "abandoned-after-window")
+					continue
+				}
+				if last != nil && last.err {
+					return vh.V("C10/abandoned-on-transient-error", "the log of tx %s (block %d, %d confirmations required) was given up after a failed receipt lookup at head %d, long before the abandonment window (block %d) had passed; its transaction stayed in its block",
+						t.Hash.Hex()[:12], t.OrigBlock, conf, early, t.OrigBlock+conf+60), out
 				}
 				fp := "C10/message-never-forwarded"
 				if lookups == 0 {
